@@ -50,6 +50,8 @@ def run(prop, repo, evidence_path=None, base_keys=frozenset()):
             p = os.path.join(VERIF, "seeded", label, "patch.diff")
             if not os.path.exists(p):
                 p = os.path.join(VERIF, "regress", label + ".diff")
+            if not os.path.exists(p):
+                p = os.path.join(VERIF, "controls", label + ".diff")
             jobs.append((prop, label, p, repo, base_keys))
     twins = []
     for d in sorted(glob.glob(os.path.join(VERIF, "twins", "*", "patch.diff"))):
